@@ -144,6 +144,14 @@ func (fr *frame) callEffects(cc *ssa.CallCommon) (keys map[string]bool, all bool
 	switch kind {
 	case callIntrinsic:
 		name := intrinsicName(cc)
+		if strings.HasPrefix(name, "(*sync.Map).") && name != "(*sync.Map).Load" {
+			smv, smd := fc.syncMapComps()
+			keys[smv], keys[smd] = true, true
+			return keys, false
+		}
+		if name == "(*sync/atomic.Value).Store" {
+			return keys, true
+		}
 		if strings.HasPrefix(name, "sync/atomic.") && !strings.HasPrefix(name, "sync/atomic.Load") {
 			// writes through the first argument
 			if pt, ok := cc.Args[0].Type().Underlying().(*types.Pointer); ok {
@@ -342,9 +350,80 @@ func (fr *frame) edgeDef(from, to *ssa.BasicBlock, cond string) {
 	fr.edge[k] = n
 }
 
+// baseAlloc: the allocation an address value is derived from (through field/index address computations).
+func baseAlloc(v ssa.Value) *ssa.Alloc {
+	for {
+		switch x := v.(type) {
+		case *ssa.Alloc:
+			return x
+		case *ssa.FieldAddr:
+			v = x.X
+		case *ssa.IndexAddr:
+			v = x.X
+		default:
+			return nil
+		}
+	}
+}
+
+// markEscapes records which fresh allocations become reachable by other code through this instruction.
+func (fr *frame) markEscapes(in ssa.Instruction) {
+	esc := func(v ssa.Value) {
+		if al := baseAlloc(v); al != nil {
+			fr.unescaped[al] = false
+		}
+	}
+	switch in := in.(type) {
+	case *ssa.Store:
+		esc(in.Val)
+	case *ssa.MapUpdate:
+		esc(in.Key)
+		esc(in.Value)
+	case *ssa.MakeInterface:
+		esc(in.X)
+	case *ssa.MakeClosure:
+		for _, b := range in.Bindings {
+			esc(b)
+		}
+	case *ssa.Return:
+		for _, r := range in.Results {
+			esc(r)
+		}
+	case *ssa.Phi:
+		for _, e := range in.Edges {
+			esc(e)
+		}
+	case *ssa.Send:
+		esc(in.X)
+	case *ssa.ChangeType:
+		esc(in.X)
+	case *ssa.Convert:
+		esc(in.X)
+	case *ssa.Slice:
+		if al := baseAlloc(in.X); al != nil && !isArrayAlloc(al) {
+			esc(in.X)
+		}
+	case ssa.CallInstruction:
+		cc := in.Common()
+		if _, isB := cc.Value.(*ssa.Builtin); isB {
+			return
+		}
+		if !cc.IsInvoke() {
+			if kind, _, _ := fr.classifyCall(cc); kind == callIntrinsic {
+				return
+			}
+		}
+		esc(cc.Value)
+		for _, a := range cc.Args {
+			esc(a)
+		}
+	}
+}
+
 func (fr *frame) instr(b *ssa.BasicBlock, idx int, in ssa.Instruction, st *State, R string, header bool) {
 	fc := fr.fc
 	P := fc.P
+	fr.markEscapes(in)
 	switch in := in.(type) {
 	case *ssa.DebugRef:
 	case *ssa.Phi:
@@ -379,10 +458,21 @@ func (fr *frame) instr(b *ssa.BasicBlock, idx int, in ssa.Instruction, st *State
 			st.comp["TOP"] = nt
 			fc.storeHeapValue(st, ref, el, P.ZeroOf(el))
 			fr.addrs[in] = &addr{kind: 2, ref: ref, T: el}
+			fr.unescaped[in] = true
+			if containsSyncMap(el, 0) {
+				fc.resetSyncMaps(st, el, ref)
+			}
 		} else {
 			key := fmt.Sprintf("L:%s%s", fr.prefix, in.Name())
 			fc.compDecl(key, P.SortOf(el))
 			st.comp[key] = P.ZeroOf(el)
+			if arr, ok := el.Underlying().(*types.Array); ok && arr.Len() <= 16 {
+				var elems []string
+				for i := int64(0); i < arr.Len(); i++ {
+					elems = append(elems, P.ZeroOf(arr.Elem()))
+				}
+				st.comp[key] = fc.arrayLit(P.SeqSort(P.SortOf(arr.Elem())), elems)
+			}
 			fr.addrs[in] = &addr{kind: 1, key: key, T: el}
 		}
 	case *ssa.FieldAddr:
@@ -412,6 +502,12 @@ func (fr *frame) instr(b *ssa.BasicBlock, idx int, in ssa.Instruction, st *State
 			return
 		}
 		fc.store(st, a, v)
+		if containsSyncMap(in.Val.Type(), 0) {
+			if at, ok := fc.addrTerm(a); ok {
+				// only zero values are ever stored (sync.Map must not be copied)
+				fc.resetSyncMaps(st, in.Val.Type(), at)
+			}
+		}
 	case *ssa.UnOp:
 		switch in.Op {
 		case token.MUL:
